@@ -151,10 +151,12 @@ def h_kernel_fp(ctx, skel, which, eps_value=None, order=None):
         t[i] = FP.var(f"t{i}")
         ctx.assume(t[i].isfinite())
         ctx.assume(t[i] >= 0.0)
+        ctx.assume(t[i] <= 1e300)     # stated bound: far from overflow (times up to 1e300)
     if eps_value is None:
         eps = FP.var("eps")
         ctx.assume(eps.isfinite())
         ctx.assume(eps > 0.0)
+        ctx.assume(eps <= 1e300)
     else:
         eps = FP.of(eps_value)
     tin = t.copy()
@@ -172,6 +174,8 @@ def h_kernel_fp(ctx, skel, which, eps_value=None, order=None):
                 s = out[c] + eps
                 # (strictly older than the child whenever fl(c+eps) > c follows by transitivity)
                 ctx.prove(f"fp:edge[{u}>{c}]>=fl(c+eps)", out[u] >= s)
+                # strictly older on doubles, even when eps is absorbed by rounding
+                ctx.prove(f"fp:edge[{u}>{c}]:strictly_older", out[u] > out[c])
         if "max" in which:
             ctx.prove(f"fp:max[{u}]:ge_in", out[u] >= tin[u])
             alts = [out[u] == tin[u]] + [out[u] == out[c] + eps for c in ch[u]]
@@ -216,6 +220,8 @@ def replay(payload):
                 s = out[c] + eps
                 if name == f"fp:edge[{u}>{c}]>=fl(c+eps)" and not (out[u] >= s):
                     return True, f"out[{u}]={out[u]!r} < fl(out[{c}]+eps)={s!r}"
+                if name == f"fp:edge[{u}>{c}]:strictly_older" and not (out[u] > out[c]):
+                    return True, f"out[{u}]={out[u]!r} not older than out[{c}]={out[c]!r} (eps={eps!r})"
             if name == f"fp:not_nan[{u}]" and out[u] != out[u]:
                 return True, "nan"
             if name == f"fp:max[{u}]:ge_in" and not out[u] >= t[u]:
